@@ -130,6 +130,14 @@ class VLoop(asyncio.AbstractEventLoop):
     def advance(self, seconds):
         self.advance_us(round(seconds * 1000000))
 
+    def errors(self):
+        """contexts passed to the exception handler so far; garbage is collected first so that contexts reported
+        from destructors ("exception was never retrieved", "task was destroyed but it is pending") do not depend
+        on when the collector happens to run (traced run vs plain replay)"""
+        import gc
+        gc.collect()
+        return self.exc
+
     def pending_timers(self):
         return [t for t in self._timers if not t[2]._cancelled]
 
